@@ -1,6 +1,7 @@
 // Pair table emitted by gen/funggen.py: compile-time facts observed at run time.
 #pragma once
 #include <string>
+#include <tuple>
 #include <vector>
 #include <sstream>
 #include <nop/protocol.h>
@@ -33,5 +34,15 @@ template <typename If, typename B> struct BindAdmits {
   enum : bool { by_ref = decltype(t<typename If::ByRef, int (*)(const B&)>(0))::value, by_val = decltype(t<typename If::ByVal, int (*)(B)>(0))::value,
                 mixed = decltype(t<typename If::ByRef, int (*)(B)>(0))::value, ret = decltype(t<typename If::Ret, B (*)(int)>(0))::value };
 };
+// trait-only facts: type forms that cannot be registered for a wire test (tuples of references as produced by std::tie / std::forward_as_tuple,
+// cv-qualified spellings) but must still be admitted where the documentation uses them
+struct FungFact { const char* a; const char* b; const char* rule; bool expected; bool ab, ba; bool proto_write; };
+template <typename P, typename T> struct ProtocolWriteAdmits {
+  using Ser = nop::Serializer<nop::StreamWriter<std::stringstream>>;
+  template <typename U> static auto w(int) -> decltype(nop::Protocol<P>::Write(static_cast<Ser*>(nullptr), std::declval<const U&>()), std::true_type{});
+  template <typename U> static std::false_type w(...);
+  enum : bool { value = decltype(w<T>(0))::value };
+};
+std::vector<FungFact> fung_facts();
 std::vector<FungPair> fung_pairs();
 }  // namespace vf
